@@ -61,7 +61,8 @@ def r1_reject_purity(ctx):
             muts = [e[1] for e in o.events if e[0] == 'call' and (e[1] in (AP, SAVE) or (e[1].startswith(BOARD + '::') and method(e[1]) in BOARD_MUTATORS)
                                                                   or 'move_history' in show(e[2][0]) if e[2] else False)]
             writes = [show(e[1]) for e in o.events if e[0] == 'write']
-            nomatch = [c for c in o.conds if c[0][0] == 'discr' and c[0][1][0] == 'call' and c[0][1][1].endswith('::find') and c[1] == 0]
+            nomatch = [c for c in o.conds if c[0][0] == 'discr' and c[0][1][0] == 'call' and (c[0][1][1].endswith('::find') or finder_summary(ctx.facts, c[0][1][1]))
+                       and (c[1] == 0 or (isinstance(c[1], tuple) and c[1][0] == 'not' and 1 in c[1][1]))]
             ctx.ob(rule, name, 'reject path: nothing applied, nothing recorded', not muts and not writes and bool(nomatch),
                    found={'mutators': muts, 'writes': writes, 'guard': [show_cond(c)[:100] for c in nomatch]}, expected='only generation before Err(InvalidMove)',
                    why='a rejected input must leave position, counters and history exactly as they were')
@@ -156,7 +157,7 @@ def r3_selection(ctx):
         if o.kind == 'return' and is_ok_result(o.value):
             ap = [e for e in o.events if e[0] == 'call' and e[1] == AP]
             gen = [e for e in o.events if e[0] == 'call' and e[1] == GEN]
-            fnd = [e for e in o.events if e[0] == 'call' and (e[1].endswith('::find') and 'Iterator' in e[1])]
+            fnd = find_events(facts, o)
             ok1 = False
             if ap and gen and fnd:
                 ok1 = len(gen) == 1 and len(fnd) == 1 and o.events.index(gen[0]) < o.events.index(fnd[0]) and \
@@ -176,6 +177,16 @@ def r3_selection(ctx):
         table, atoms, okrows = coordinate_predicate(facts, cname, snaps)
         found = {'compared with': atoms, 'table': {str(k): v for k, v in table.items()}}
         pred_ok = okrows and table == AND_TABLE and atoms == {'from_square': 'arg2', 'to_square': 'arg3'}
+    elif not fc:
+        # the first-match search lives in a helper written as a loop: its summary gives the predicate, the call site the operands
+        calls = {(e[1], tuple(e[2])) for o in outs for e in find_events(facts, o) if finder_summary(facts, e[1])}
+        if len(calls) == 1:
+            fname, fargs = next(iter(calls))
+            fs = finder_summary(facts, fname)
+            ctx.touch(fname)
+            ops = {k: show(strip(fargs[i_ - 1])) for k, i_ in fs['params'].items()}
+            found = {'helper': fname, 'compared with': ops, 'table': {str(k): v for k, v in fs['table'].items()}}
+            pred_ok = fs['table'] == AND_TABLE and ops == {'from_square': 'arg2', 'to_square': 'arg3'}
     ctx.ob(rule, name, 'predicate: from == typed from && to == typed to', pred_ok, found=found, expected='m.from_square() == from && m.to_square() == to (exact equality on both squares)')
     # notation
     name, outs = game_outcomes(ctx, 'apply_chess_move_from_raw_algebraic_notation')
